@@ -593,6 +593,33 @@ func capN(n, c int) string {
 	return fmt.Sprintf("%d", n)
 }
 
+type action struct {
+	kind       int // 0 announce, 1 arrive, 2 advance
+	peer, hash int
+	dt         time.Duration
+}
+
+func runActions(t tb, delay time.Duration, nH, nP int, acts []action) *world {
+	w := newWorld(t, delay, nH, nP)
+	for _, a := range acts {
+		if w.excluded {
+			break
+		}
+		switch a.kind {
+		case 0:
+			w.announce(a.peer, a.hash)
+		case 1:
+			w.arrive(a.hash)
+		default:
+			if w.now()+a.dt < 58*time.Second {
+				w.advance(a.dt)
+			}
+		}
+	}
+	w.finish()
+	return w
+}
+
 func TestSteppedSchedule(t *testing.T) {
 	rapid.Check(t, func(t *rapid.T) {
 		evid.Eval()
@@ -601,33 +628,38 @@ func TestSteppedSchedule(t *testing.T) {
 		nP := rapid.IntRange(3, 7).Draw(t, "peers")
 		never := make([]bool, nH)
 		for i := range never {
-			never[i] = rapid.Bool().Draw(t, "neverArrives")
+			never[i] = rapid.IntRange(0, 2).Draw(t, "neverArrives") == 0
 		}
 		dts := []time.Duration{time.Millisecond, 5 * time.Millisecond, 10 * time.Millisecond, 11 * time.Millisecond,
 			delay / 3, delay / 2, delay - time.Millisecond, delay, delay + time.Millisecond, delay + 10*time.Millisecond, 2*delay + 5*time.Millisecond}
-		w := newWorld(t, delay, nH, nP)
 		n := rapid.IntRange(1, 45).Draw(t, "actions")
-		for i := 0; i < n && !w.excluded; i++ {
+		var acts []action
+		for i := 0; i < n; i++ {
 			switch k := rapid.IntRange(0, 9).Draw(t, "kind"); {
 			case k <= 5:
-				w.announce(rapid.IntRange(0, nP-1).Draw(t, "peer"), rapid.IntRange(0, nH-1).Draw(t, "hash"))
+				acts = append(acts, action{kind: 0, peer: rapid.IntRange(0, nP-1).Draw(t, "peer"), hash: rapid.IntRange(0, nH-1).Draw(t, "hash")})
 			case k == 6:
-				h := rapid.IntRange(0, nH-1).Draw(t, "hash")
-				if !never[h] {
-					w.arrive(h)
+				if h := rapid.IntRange(0, nH-1).Draw(t, "hash"); !never[h] {
+					acts = append(acts, action{kind: 1, hash: h})
 				}
 			default:
-				dt := rapid.SampledFrom(dts).Draw(t, "dt")
-				if w.now()+dt < 58*time.Second {
-					w.advance(dt)
-				}
+				acts = append(acts, action{kind: 2, dt: rapid.SampledFrom(dts).Draw(t, "dt")})
 			}
 		}
-		w.finish()
+		w := runActions(t, delay, nH, nP, acts)
 		if w.excluded {
 			evid.Count("a.case.excluded-known-finding")
 			return
 		}
 		w.classify()
+		evid.Count("a.case.completed")
+		// harness self-check: the schedule is a function of the draws only
+		if rapid.IntRange(0, 15).Draw(t, "replay") == 0 {
+			w2 := runActions(t, delay, nH, nP, acts)
+			if a, b := strings.Join(w.trace, "\n"), strings.Join(w2.trace, "\n"); a != b {
+				t.Fatalf("harness: the same actions produced two different request logs:\n%s\n--- second run ---\n%s", a, b)
+			}
+			evid.Count("a.selfcheck.replayed-identically")
+		}
 	})
 }
